@@ -213,7 +213,7 @@ func serializeString(buf *bytes.Buffer, s string) {
 
 func serializeCaseSensitiveString(buf *bytes.Buffer, s string) {
 	buf.Write([]byte{91, 83, 93})
-	writeKeyText(buf, option.TrimSpace(s))
+	writeKeyText(buf, s)
 }
 
 // writeKeyText writes a text as part of a comparison key. Keys of several values are joined with a colon,
